@@ -31,6 +31,7 @@ CONSTANTS
   MaxClock,
   PreSynced,    \* TRUE: start after the handshake (endpoints Running)
   InboxCap,     \* at most this many delivered-but-unread packets per peer (guard on Deliver)
+  Mortal,       \* peers that may die at any moment (at most one dies); survivors then call disconnect_player
   EagerNet,     \* TRUE: reliable FIFO network that delivers before any session acts again (component runs)
   DelayValues,  \* input delays set_input_delay may be called with at run time ({} = never)
   VaryAll,      \* TRUE: every peer draws inputs from Values; FALSE: only peer 0 (the others submit Default)
@@ -285,9 +286,20 @@ DelayStep ==
      /\ ss[p].sl.queues[Peers[p+1].locals[i]].last_added <= MaxFrame    \* keeps the exploration finite
      /\ SetDelayAct(p, Peers[p+1].locals[i], d)
 
+\* one of the Mortal peers stops existing (its packets still in flight may arrive); a survivor
+\* reacts with disconnect_player for its handles (the same code path as a time-out, without a clock)
+DeathStep ==
+  \/ \E v \in Mortal : (\A q \in PeerIds : alive[q]) /\ Kill(v)
+  \/ \E p \in P2PIds : \E v \in Mortal :
+        /\ ~alive[v] /\ alive[p]
+        /\ \E i \in 1..Len(Peers[v+1].locals) :
+              /\ ~ss[p].status[Peers[v+1].locals[i]].disc
+              /\ DisconnectPlayer(p, Peers[v+1].locals[i])
+
 Next ==
   \/ \E p \in P2PIds : Tick(p) \/ (Granular /\ (Poll(p) \/ Events(p)))
   \/ DelayStep
+  \/ DeathStep
   \/ NetStep
   \/ \E d \in ClockSteps : Tock(d)
 
